@@ -180,6 +180,21 @@ def run_case(case):
             r = guard(lambda: [where[id(t)] for t in wl.get_schedulable_tasks(**kw)])
             left = len(d.draws)
         return ([1, r[1]] if r[0] else [0, [r[1], left]]), order
+    if k == "fallback":
+        # REAL lifecycle calls on task x: scheduled ahead of its release, released while SCHEDULED, unscheduled
+        x = tasks[op[1]]
+        x._state = TaskState.VIRTUAL
+        x._pre_scheduling_state = TaskState.VIRTUAL
+        strat = x.available_execution_strategies[0]
+        x.schedule(et(op[2]), Placement.create_task_placement(task=x, placement_time=et(op[2] + 3), worker_pool_id="wp",
+                                                              worker_id="w", execution_strategy=strat))
+        x.release(et(op[3]))
+        x.unschedule(et(op[3]))
+        after = [x.state.value, x.release_time.to(US).time]
+        with Draws(op[5]) as d:
+            r = guard(lambda: ids(tg.get_schedulable_tasks(**sched_kwargs(op[4], tasks))))
+            left = len(d.draws)
+        return [after, ([1, r[1]] if r[0] else [0, [r[1], left]]), ids(tg.get_releasable_tasks())], order
     if k == "ready":
         return int(tasks[op[1]].is_ready_to_run(tg)), order
     if k == "flags":
